@@ -620,6 +620,350 @@ def _clone(v):
     return copy.deepcopy(v)
 
 
+# ------------------------------------------- script-built objects with accessors
+# "plain objects [convert] to dicts of own data properties": a script-built object mixing data
+# properties, getters, setters (object-literal and Object.defineProperty), properties turned from
+# data into accessor and back, with prototypes (Object.create / constructor) that hold data and
+# accessor properties under the same names, nested inside arrays / objects.  The model below keeps,
+# per object, which own keys are data (with their expected Python value) and which are accessors.
+ACC_KEYS = ["a", "b", "g", "w", "x", "k", "len"]
+ACC_PRIMS = [("null", None), ("undefined", None), ("true", True), ("false", False), ("0", 0), ("(-1)", -1), ("2.5", 2.5),
+             ("'s'", "s"), ("''", ""), ("7", 7), ("'\u00e9'", "\u00e9"), ("1e21", 1e21)]
+ACC_KINDS = ["data", "data", "data", "getter", "setter", "getset", "data2acc", "acc2data"]
+
+
+def acc_payload(rnd, depth):
+    """(kind, ...) tree of a data value: prim / array / object spec."""
+    r = rnd.random()
+    if depth >= 3 or r < 0.6:
+        return ("prim", rnd.randrange(len(ACC_PRIMS)))
+    if r < 0.8:
+        return ("arr", [acc_payload(rnd, depth + 1) for _ in range(rnd.randint(0, 3))])
+    return ("obj", acc_spec(rnd, depth + 1))
+
+
+def acc_spec(rnd, depth=0, as_proto=False):
+    base = rnd.choice(["lit", "lit", "create", "ctor", "ctor-this"])
+    if as_proto and base.startswith("ctor"):
+        base = "lit"
+    keys = rnd.sample(ACC_KEYS, rnd.randint(0 if depth else 1, 5))
+    props = []
+    for k in keys:
+        kind = rnd.choice(ACC_KINDS)
+        where = rnd.choice(["lit", "assign", "define"])
+        props.append({"key": k, "kind": kind, "where": where, "enum": rnd.random() < 0.7,
+                      "value": ("prim", rnd.randrange(len(ACC_PRIMS))) if as_proto else acc_payload(rnd, depth),
+                      "ret": rnd.randrange(len(ACC_PRIMS))})
+    proto = None
+    if base != "lit":
+        proto = acc_spec(rnd, max(depth, 2), as_proto=True) if rnd.random() < 0.9 else None
+    return {"base": base, "props": props, "proto": proto}
+
+
+def _acc_lookup(model, key):
+    """First holder of key on the prototype chain of a model object: 'data' / 'acc' (with a setter) /
+    'getter-only' / None."""
+    while model is not None:
+        if key in model["own"]:
+            e = model["own"][key]
+            return e[0] if e[0] == "data" or e[1] else "getter-only"
+        model = model["proto"]
+    return None
+
+
+def acc_render(spec):
+    """(JavaScript expression building the object, model {'own': {key: ('data', py) | ('acc', has_setter)}, 'proto': model})."""
+    base = spec["base"]
+    pexpr, pmodel = acc_render(spec["proto"]) if spec["proto"] else (None, None)
+    model = {"own": {}, "proto": pmodel}
+    own = model["own"]
+    lit, stmts, ctor = [], [], []
+    getter = lambda p: "function () { return %s; }" % ACC_PRIMS[p["ret"]][0]
+
+    def define_acc(p, k, target="o"):
+        parts = {"getter": ["get: " + getter(p)], "setter": ["set: function (v) {}"]}.get(p["kind"], ["get: " + getter(p), "set: function (v) {}"])
+        stmts.append("Object.defineProperty(%s, '%s', {%s, enumerable: %s, configurable: true});" % (target, k, ", ".join(parts), "true" if p["enum"] else "false"))
+        own[k] = ("acc", p["kind"] != "getter")
+
+    def put_data(p, k, where):
+        vsrc, vpy = acc_value(p["value"])
+        if where == "assign" and _acc_lookup(model, k) == "getter-only":
+            where = "define"   # all code is strict (spec.md): assigning to a getter-only name throws; define instead
+        if where == "lit":
+            lit.append("%s: %s" % (k, vsrc))
+            own[k] = ("data", vpy)
+        elif where == "define":
+            stmts.append("Object.defineProperty(o, '%s', {value: %s, writable: true, enumerable: true, configurable: true});" % (k, vsrc))
+            own[k] = ("data", vpy)
+        else:
+            # o.k = v: an accessor of that name anywhere on the chain takes the assignment (its setter runs, or
+            # nothing happens without one): no own property appears
+            (ctor if base == "ctor-this" else stmts).append("%s.%s = %s;" % ("this" if base == "ctor-this" else "o", k, vsrc))
+            if _acc_lookup(model, k) != "acc":
+                own[k] = ("data", vpy)
+
+    for p in spec["props"]:
+        k, kind, where = p["key"], p["kind"], p["where"]
+        if base != "lit" and where == "lit":
+            where = "assign" if kind in ("data", "data2acc") else "define"
+        if kind == "data":
+            put_data(p, k, where)
+        elif kind in ("getter", "setter", "getset", "acc2data"):
+            if where == "lit":
+                if kind in ("getter", "getset", "acc2data"):
+                    lit.append("get %s() { return %s; }" % (k, ACC_PRIMS[p["ret"]][0]))
+                if kind in ("setter", "getset"):
+                    lit.append("set %s(v) {}" % k)
+                own[k] = ("acc", kind in ("setter", "getset"))
+            else:
+                define_acc(p, k)
+            if kind == "acc2data":
+                put_data(p, k, "define")
+        elif kind == "data2acc":
+            put_data(p, k, where)
+            define_acc(dict(p, kind=("getter", "setter", "getset")[p["ret"] % 3]), k)
+    if base == "lit":
+        head = "var o = {%s};" % ", ".join(lit)
+    elif base == "create":
+        head = "var o = Object.create(%s);" % (pexpr or "Object.prototype")
+    else:
+        head = "function F() { %s } %s var o = new F();" % (" ".join(ctor), ("F.prototype = %s;" % pexpr) if pexpr else "")
+    return "(function () { %s %s return o; })()" % (head, " ".join(stmts)), model
+
+
+def acc_value(payload):
+    if payload[0] == "prim":
+        return ACC_PRIMS[payload[1]]
+    if payload[0] == "arr":
+        parts = [acc_value(x) for x in payload[1]]
+        return "[" + ", ".join(p[0] for p in parts) + "]", [p[1] for p in parts]
+    src, model = acc_render(payload[1])
+    return src, acc_expected(model)
+
+
+def acc_expected(model):
+    return {k: v[1] for k, v in model["own"].items() if v[0] == "data"}
+
+
+def acc_features(spec, acc=None):
+    acc = set() if acc is None else acc
+    for p in spec["props"]:
+        acc.add(p["kind"] + ("" if p["kind"] == "data" else "/" + ("literal" if p["where"] == "lit" and spec["base"] == "lit" else "defineProperty")))
+        if p["value"][0] == "obj":
+            acc.add("nested")
+            acc_features(p["value"][1], acc)
+    if spec["proto"]:
+        names = {p["key"] for p in spec["props"]} & {p["key"] for p in spec["proto"]["props"]}
+        acc.add("inherited/" + spec["base"] + ("/same-name" if names else ""))
+    return acc
+
+
+ACC_DIRECTED = [
+    # (script, expected) - fixed shapes next to the generated ones
+    ("var r = {a: 1, get g() { return 7; }, z: 2}; r", {"a": 1, "z": 2}),
+    ("var r = {set w(v) {}}; r", {}),
+    ("var r = {get g() { return 1; }, set g(v) {}}; r", {}),
+    ("var r = Object.create({inherited: 1}); r.own = 2; r", {"own": 2}),
+    ("var r = Object.create({g: 'inherited'}); r.k = 1; Object.defineProperty(r, 'g', {get: function () { return 0; }}); r", {"k": 1}),
+    ("var r = Object.create({get g() { return 5; }}); r.k = 1; r", {"k": 1}),
+    ("var r = [{m: {x: 1, y: 2}}]; Object.defineProperty(r[0].m, 'x', {get: function () { return 5; }}); r", [{"m": {"y": 2}}]),
+    ("var r = {get x() { return 1; }, y: 2}; Object.defineProperty(r, 'x', {value: 3, writable: true, enumerable: true, configurable: true}); r", {"x": 3, "y": 2}),
+    ("function F() { this.own = [1]; } F.prototype.shared = 1; Object.defineProperty(F.prototype, 'acc', {get: function () { return 2; }}); var r = new F(); r", {"own": [1]}),
+    ("function G() {} G.prototype = {get own() { return 1; }, set own(v) {}}; var r = new G(); r.own = 5; r.other = null; r", {"other": None}),
+    ("var r = {list: [{get a() { return 1; }, b: undefined}, [{set c(v) {}}]]}; r", {"list": [{"b": None}, [{}]]}),
+    ("var r = {}; Object.defineProperty(r, 'g', {get: function () { return r; }, enumerable: true}); r", {}),
+]
+
+
+def ueq(a, b):
+    """Equality of script results without key order (the accessor family makes no statement about it)."""
+    if isinstance(a, dict) and isinstance(b, dict):
+        return set(a) == set(b) and all(ueq(a[k], b[k]) for k in a)
+    if isinstance(a, list) and isinstance(b, list):
+        return len(a) == len(b) and all(ueq(x, y) for x, y in zip(a, b))
+    return not isinstance(a, (list, dict)) and not isinstance(b, (list, dict)) and neq(a, b)
+
+
+def acc_case(seed):
+    """Script and expected Python value of generated case `seed` (negative: directed case -seed-1)."""
+    if seed < 0:
+        src, exp = ACC_DIRECTED[-seed - 1]
+        return src, exp, {"directed"}
+    rnd = random.Random(seed)
+    spec = acc_spec(rnd)
+    src, model = acc_render(spec)
+    exp = acc_expected(model)
+    feats = acc_features(spec)
+    wrap = rnd.choice(["top", "top", "array", "object"])
+    if wrap == "array":
+        src, exp = "[%s, 1]" % src, [exp, 1]
+    elif wrap == "object":
+        s2, m2 = acc_render(acc_spec(rnd, 1))
+        src, exp = "{m: %s, n: [%s]}" % (src, s2), {"m": exp, "n": [acc_expected(m2)]}
+    feats.add("wrap/" + wrap)
+    return "var r = %s; r" % src, exp, feats
+
+
+def _acc_diff(exp, got):
+    """Coarse kind of difference for the signature."""
+    if isinstance(exp, dict) and isinstance(got, dict):
+        if set(got) - set(exp):
+            return "extra-key"
+        if set(exp) - set(got):
+            return "missing-key"
+        for k in exp:
+            if not ueq(exp[k], got[k]):
+                return _acc_diff(exp[k], got[k])
+    if isinstance(exp, list) and isinstance(got, list) and len(exp) == len(got):
+        for x, y in zip(exp, got):
+            if not ueq(x, y):
+                return _acc_diff(x, y)
+    return "value"
+
+
+def accessor_task(seeds):
+    m = engine.load()
+    out = []
+    for seed in seeds:
+        src, exp, feats = acc_case(seed)
+        ctx = m.Context(time_limit=10)
+        bad = None
+        for path, fn in (("eval", lambda: ctx.eval(src)), ("get", lambda: ctx.get("r")), ("eval-name", lambda: ctx.eval("[r][0]"))):
+            st, got = guarded(fn)
+            if st != "ok":
+                bad = (path + "-raises", show(exp), got if st == "exc" else st)
+            elif not ueq(got, exp):
+                bad = ("%s-differs|%s" % (path, _acc_diff(exp, got)), show(exp), show(got))
+            if bad:
+                break
+        out.append((seed, src, sorted(feats), bad))
+    return out
+
+
+# ----------------------------------------- interleavings with refused set() steps
+def _containers(v, acc):
+    if isinstance(v, (list, dict)):
+        acc.append(v)
+        for y in (v if isinstance(v, list) else v.values()):
+            _containers(y, acc)
+    return acc
+
+
+def _try_set(ctx, name, value):
+    """set() of a value outside the documented domain: refusal of any kind (or acceptance) is fine."""
+    import gc
+
+    on = gc.isenabled()
+    gc.disable()   # a collection at the bottom of the host stack only makes Hypothesis' gc hook print noise
+    try:
+        ctx.set(name, value)
+        return True
+    except pool.HarnessTimeout:
+        raise
+    except (Exception, RecursionError):
+        return False
+    finally:
+        if on:
+            gc.enable()
+
+
+def refused_task(seeds):
+    """One context; between ordinary set / get / eval steps, set() calls with values outside the documented
+    domain (a container that contains itself, a value nested thousands of levels deep).  Whatever those calls do
+    (any exception, or acceptance) is not judged; the ordinary steps before and after - which reuse the very
+    container objects that were part of the refused value, and fresh ones - are judged against the dict model."""
+    m = engine.load()
+    out = []
+    for seed in seeds:
+        rnd = random.Random(seed)
+        vals = [v for v in collect(seed % (2 ** 31), 12, "value") if not has_proto_key(v)]
+        vals += [[1, [2, {"k": [3]}]], {"n": 1, "items": [1, 2.5, "s"], "o": {"p": []}}]
+        ctx = m.Context(time_limit=10)
+        model = {}
+        trace = []
+        bad = None
+        nrefused = 0
+        pending = []   # ordinary values made of containers that took part in a refused set()
+        for step in range(16):
+            name = "g%d" % rnd.randint(0, 3)
+            op = "set" if pending else rnd.choice(["set", "set", "assign", "push", "cyclic", "cyclic", "deep"])
+            try:
+                with pool.cpu_alarm(30):
+                    if op == "cyclic":
+                        top = rnd.choice([v for v in vals if isinstance(v, (list, dict))] or [[0]])
+                        conts = _containers(top, [])
+                        c = rnd.choice(conts)
+                        back = rnd.choice([c, top])   # top is c itself or one of its ancestors: a cycle either way
+                        key = None
+                        if isinstance(c, list):
+                            c.append(back if rnd.random() < 0.5 else [back])
+                        else:
+                            key = "self%d" % step
+                            c[key] = back if rnd.random() < 0.5 else {"in": [back]}
+                        try:
+                            _try_set(ctx, name, top)
+                        finally:
+                            if key is None:
+                                c.pop()
+                            else:
+                                del c[key]
+                        model.pop(name, None)   # what a refused set() leaves under the name is not stated
+                        nrefused += 1
+                        trace.append(("set-cyclic", name, show(top)))
+                        pending = [top, [c, {"again": c}], _clone(top)]
+                    elif op == "deep":
+                        depth = rnd.choice([1100, 1500, 3000, 6000])
+                        levels = [[rnd.choice(vals)] if rnd.random() < 0.5 else {"leaf": 1}]
+                        for i in range(depth):
+                            levels.append([levels[-1], "x"] if rnd.random() < 0.7 else {"d": levels[-1], "i": i})
+                        levels.reverse()
+                        _try_set(ctx, name, levels[0])
+                        model.pop(name, None)
+                        nrefused += 1
+                        trace.append(("set-deep", name, depth))
+                        # cut the chain: what is left is an ordinary value a few levels deep
+                        cut = rnd.randint(3, 30)
+                        tail = levels[cut]
+                        if isinstance(tail, list):
+                            del tail[:]
+                        else:
+                            tail.clear()
+                        j = rnd.randint(0, cut - 1)
+                        pending = [levels[0], {"v": levels[j], "w": [levels[rnd.randint(0, cut)]]}]
+                        # iterative release of the rest of the chain (a recursive dealloc of 6000 levels is fine in
+                        # CPython, but keep the worker's stack out of the picture)
+                        levels = None
+                    elif op == "set":
+                        v = pending.pop(0) if pending else rnd.choice(vals)
+                        ctx.set(name, v)
+                        model[name] = _clone(v)
+                        trace.append(("set", name, show(v)))
+                    elif op == "assign":
+                        src, exp = js_lit(rnd.choice(vals))
+                        ctx.eval("var %s = %s;" % (name, src))
+                        model[name] = exp
+                        trace.append(("assign", name, src[:80]))
+                    elif op == "push" and isinstance(model.get(name), list):
+                        ctx.eval("%s.push(7);" % name)
+                        model[name].append(7)
+                        trace.append(("push", name))
+                    for n2, exp in model.items():
+                        got = ctx.get(n2)
+                        got2 = ctx.eval(n2)
+                        if not neq(got, exp) or not neq(got2, exp):
+                            bad = {"trace": trace[-6:], "name": n2, "expected": show(exp), "get": show(got), "eval": show(got2)}
+                            break
+            except pool.HarnessTimeout:
+                bad = {"trace": trace[-6:], "hang": True}
+            except Exception as e:
+                bad = {"trace": trace[-6:], "exception": engine.exc_info(e), "op": op}
+            if bad:
+                bad["after_refused"] = nrefused
+                break
+        out.append((seed, len(trace), nrefused, bad))
+    return out
+
+
 # ------------------------------------------------------------------- the check
 def shrink_value(v, fails):
     """Smallest failing sub-value (greedy descent into children)."""
@@ -877,6 +1221,43 @@ def main(chk):
                 kind = "exception:" + bad["exception"]["cls"] if "exception" in bad else "hang" if "hang" in bad else "differs"
                 chk.violation("interleave|%s" % kind, {"sub": "interleave", "seed": seed, **{k: v for k, v in bad.items() if k == "trace"}},
                               bad.get("expected"), {k: v for k, v in bad.items() if k not in ("trace", "expected")}, sub="interleave")
+    # 2b: script-built objects with accessor properties, own and inherited (directed + generated)
+    nacc = 1500 if quick else 30000
+    seeds = [-(i + 1) for i in range(len(ACC_DIRECTED))] + [core.shard_seed(chk.seed, "C11", "accessor", i) % (2 ** 31) for i in range(nacc)]
+    res = pool.run(accessor_task, pool.chunks(seeds, 64), timeout=900)
+    for rb in res:
+        if isinstance(rb, (pool.HANG, pool.CRASH)):
+            chk.violation("accessor|%r" % rb, {"sub": "accessor"}, None, repr(rb), sub="accessor")
+            continue
+        for seed, src, feats, bad in rb:
+            chk.count()
+            if any(f.split("/")[0] in ("getter", "setter", "getset", "data2acc", "acc2data", "directed") for f in feats):
+                chk.nontrivial("acc|" + core.h16(src))
+            for f in feats:
+                if not f.startswith("wrap/"):
+                    chk.classify("accessor family: " + f)
+            if bad:
+                chk.violation("accessor|%s" % bad[0], {"sub": "accessor", "seed": seed, "src": src[:600]}, bad[1], bad[2], sub="accessor")
+            else:
+                chk.sample({"sub": "accessor", "src": src[:200]}, cls="acc", per_class=2)
+    # 5b: interleavings with refused set() steps in between (only the ordinary steps are judged)
+    seeds = [core.shard_seed(chk.seed, "C11", "refused", i) % (2 ** 31) for i in range(160 if quick else 3000)]
+    batches = pool.chunks(seeds, 10)
+    res = pool.run(refused_task, batches, timeout=900)
+    for b, rb in zip(batches, res):
+        if isinstance(rb, (pool.HANG, pool.CRASH)):
+            chk.violation("refused|%r" % rb, {"sub": "refused"}, None, repr(rb), sub="refused")
+            continue
+        for seed, steps, nref, bad in rb:
+            chk.count()
+            if nref >= 1 and steps >= 4:
+                chk.nontrivial("rf%d" % seed)
+            chk.classify("history with %s refused set()" % ("no" if nref == 0 else "1" if nref == 1 else "2+"))
+            if bad:
+                kind = "exception:" + bad["exception"]["cls"] if "exception" in bad else "hang" if "hang" in bad else "differs"
+                chk.violation("refused|%s|%s" % (kind, "after-refused-set" if bad.get("after_refused") else "before-any-refusal"),
+                              {"sub": "refused", "seed": seed, "trace": bad.get("trace")},
+                              bad.get("expected"), {k: v for k, v in bad.items() if k not in ("trace", "expected")}, sub="refused")
     chk.exhaustive = False
 
 
@@ -899,5 +1280,11 @@ def replay(rec):
         return {"fails": r[0] != "ok" or not neq(r[1], expect), "expected": show(expect), "actual": show(r[1]) if r[0] == "ok" else r[1]}
     if case.get("sub") == "interleave":
         (seed, steps, bad), = interleave_task([case["seed"]])
+        return {"fails": bool(bad), "expected": None, "actual": bad}
+    if case.get("sub") == "accessor":
+        (seed, src, feats, bad), = accessor_task([case["seed"]])
+        return {"fails": bool(bad), "expected": bad[1] if bad else None, "actual": bad[2] if bad else "ok"}
+    if case.get("sub") == "refused":
+        (seed, steps, nref, bad), = refused_task([case["seed"]])
         return {"fails": bool(bad), "expected": None, "actual": bad}
     return {"fails": False, "expected": None, "actual": "not replayable"}
